@@ -606,12 +606,25 @@ func (m *Machine) intrinsic(name string, fn *ssa.Function, args []Value) (Value,
 	case "log.Panicf", "log.Panic", "log.Panicln":
 		m.require(False, "panic", "explicit panic via "+name)
 	case "(*sync.Pool).Get":
+		// A pool hands back what was Put last if anything is there (what the real pool does on
+		// one P between collections, and the adversarial case for a value that is still in use
+		// after it was Put); otherwise it calls New.
 		p := args[0].(SlotPtr)
+		if items := m.pools[p.p]; len(items) > 0 {
+			v := items[len(items)-1]
+			m.pools[p.p] = items[:len(items)-1]
+			return v, true
+		}
 		st := (*p.p).(Struct)
 		// field "New" is the last field
 		nf := st[len(st)-1]
 		return m.callValue(nf, &ssa.CallCommon{}, nil), true
 	case "(*sync.Pool).Put":
+		p := args[0].(SlotPtr)
+		if m.pools == nil {
+			m.pools = map[*Value][]Value{}
+		}
+		m.pools[p.p] = append(m.pools[p.p], args[1])
 		return nil, true
 	case "(*sync.Mutex).Lock":
 		m.mutexLock(m.syncKey(args[0]))
